@@ -155,26 +155,41 @@ def check_copies(coarse, fine, templates, all_atom, names=None):
 
 
 # ------------------------------------------------------------------------------------------- bonds (C03)
+def template_descriptors(template):
+    """[(template atom, descriptor), ...] in template order; [] for a node without fragment."""
+    if template is None:
+        return []
+    return [(t, d) for t in template.nodes for d in (template.nodes[t].get('bonding') or [])]
+
+
 def spec_exact_counts(base, desc, legacy):
     """For which base-graph edges is the number of inter-fragment bonds determined by the statement
     ('exactly that many whenever the fragments were written with a dedicated compatible descriptor pair per unit
-    of order')?  Two sufficient conditions, both independent of the order in which pairs are searched:
+    of order')?  desc: {coarse node: [(template atom, descriptor), ...]}.  Two sufficient conditions, both
+    independent of the order in which pairs are searched:
 
     (H) all descriptors in a connected part of the base graph are mutually compatible '$' descriptors and every
         copy carries at least as many as its weighted degree: every unit of order can get its own pair, whatever
-        is picked first  ->  exactly `order` bonds on every edge of that part;
+        is picked first  ->  `order` pairs are used on every edge of that part;
     (X) the descriptors of p that are compatible with some descriptor of q are compatible with no descriptor of
         any other neighbour of p (and vice versa): they are dedicated to this edge.  The compatibility relation
         between two descriptor lists is a disjoint union of complete bipartite blocks, so ANY maximal sequence of
-        picks has the same length M = sum over blocks of min(size left, size right) -> exactly min(order, M) bonds.
+        picks has the same length M = sum over blocks of min(size left, size right) -> min(order, M) pairs are used.
+    Used pairs are distinct BONDS only if no two of them join the same two atoms (a molecule has at most one bond
+    per atom pair); this is guaranteed when, on one side of the edge, the descriptors in question sit on pairwise
+    different atoms - a claim is made only then.
     Returns {frozenset((p, q)): count}; edges not listed are only bounded by their order."""
     res = {}
+
+    def spread(pairs):
+        atoms = [t for t, _ in pairs]
+        return len(set(atoms)) == len(atoms)
     real = [(u, v, o) for u, v, o in base.edges(data='order') if o and o >= 1]
     g1 = nx.Graph()
     g1.add_nodes_from(base.nodes)
     g1.add_edges_from((u, v) for u, v, _ in real)
     for comp in nx.connected_components(g1):
-        ds = [d for n in comp for d in desc.get(n, [])]
+        ds = [d for n in comp for _, d in desc.get(n, [])]
         if not ds or any(d[0] != '$' for d in ds):
             continue
         if legacy and len(set(ds)) > 1:
@@ -182,29 +197,31 @@ def spec_exact_counts(base, desc, legacy):
         wdeg = {n: sum(o for _, _, o in base.edges(n, data='order') if o) for n in comp}
         if all(len(desc.get(n, [])) >= wdeg[n] for n in comp):
             for u, v, o in real:
-                if u in comp:
+                if u in comp and (spread(desc.get(u, [])) or spread(desc.get(v, []))):
                     res[frozenset((u, v))] = o
     for u, v, o in real:
         key = frozenset((u, v))
         if key in res:
             continue
         du, dv = desc.get(u, []), desc.get(v, [])
-        eu = [i for i, d in enumerate(du) if any(spec_compatible(d, e, legacy) for e in dv)]
-        ev = [j for j, e in enumerate(dv) if any(spec_compatible(d, e, legacy) for d in du)]
+        eu = [i for i, (_, d) in enumerate(du) if any(spec_compatible(d, e, legacy) for _, e in dv)]
+        ev = [j for j, (_, e) in enumerate(dv) if any(spec_compatible(d, e, legacy) for _, d in du)]
 
         def exclusive(p, other, idxs, dl):
             for w in base.neighbors(p):
                 if w == other or not base.edges[p, w].get('order'):
                     continue
                 for i in idxs:
-                    if any(spec_compatible(dl[i], e, legacy) for e in desc.get(w, [])):
+                    if any(spec_compatible(dl[i][1], e, legacy) for _, e in desc.get(w, [])):
                         return False
             return True
         if not (exclusive(u, v, eu, du) and exclusive(v, u, ev, dv)):
             continue
+        if not (spread([du[i] for i in eu]) or spread([dv[j] for j in ev])):
+            continue
         blocks = {}
         for i in eu:
-            nb = frozenset(j for j in ev if spec_compatible(du[i], dv[j], legacy))
+            nb = frozenset(j for j in ev if spec_compatible(du[i][1], dv[j][1], legacy))
             blocks[nb] = blocks.get(nb, 0) + 1
         sets = list(blocks)
         if any(a & b for x, a in enumerate(sets) for b in sets[x + 1:]):
@@ -238,10 +255,7 @@ def check_bonds(base, fine, templates, legacy, all_atom, names=None, planned=Non
     out = []
     if names is None:
         names = {k: base.nodes[k].get('fragname') for k in base.nodes}
-    desc = {}
-    for k in base.nodes:
-        T = templates.get(names[k])
-        desc[k] = [d for t in T.nodes for d in (T.nodes[t].get('bonding') or [])] if T is not None else []
+    desc = {k: template_descriptors(templates.get(names[k])) for k in base.nodes}
     per_edge = {}
     bonding_edges = []
     for u, v, d in fine.edges(data=True):
@@ -268,7 +282,7 @@ def check_bonds(base, fine, templates, legacy, all_atom, names=None, planned=Non
         if got != cnt:
             p, q = tuple(key)
             out.append(('bond-count', 'base edge %r-%r (order %r, #%s %s / #%s %s): %d bonds, dedicated pairs determine %d' % (
-                p, q, base.edges[p, q].get('order'), names[p], desc[p], names[q], desc[q], got, cnt)))
+                p, q, base.edges[p, q].get('order'), names[p], [d for _, d in desc[p]], names[q], [d for _, d in desc[q]], got, cnt)))
     # descriptor rules per bond
     use = []           # (u, v, b0, b1, feasible orientations)
     for u, v, d in bonding_edges:
